@@ -109,6 +109,9 @@ func CheckC14(c DivCase) error {
 		}
 		tol := new(big.Rat).Add(big.NewRat(int64(n), 2), big.NewRat(int64(n), 1<<16))
 		for i, p := range prios {
+			if s.Sign() == 0 {
+				break // the list is [0]: no proportion is defined, conservation decides
+			}
 			exact := new(big.Rat).SetFrac(mul(bu(uint64(c.Dividend)), bu(uint64(p))), s)
 			diff := new(big.Rat).Sub(new(big.Rat).SetInt(bu(uint64(incs[i]))), exact)
 			if diff.Abs(diff).Cmp(tol) > 0 {
@@ -193,7 +196,10 @@ func GenPrios(t *rapid.T, max int, big bool) []uint {
 				p = uint(rapid.IntRange(1, 100).Draw(t, "p"))
 			}
 		}
-		if p == 0 || set[p] {
+		if rapid.IntRange(0, 15).Draw(t, "zero") == 0 {
+			p = 0 // a legal priority value: the list [0] has a zero sum, Rate divides by it
+		}
+		if set[p] {
 			continue
 		}
 		set[p] = true
